@@ -14,7 +14,7 @@
 EXTENDS Bytes, Json, IOUtils
 
 IdOrd(ps) == ps
-W5 == INSTANCE Wire5 WITH Ord <- IdOrd, CutAt <- -1
+W5 == INSTANCE Wire5 WITH Ord <- IdOrd, CutAt <- -1, Extra <- << >>
 W3 == INSTANCE Wire3
 
 Rec == ndJsonDeserialize(IOEnv.TRACE)
